@@ -601,9 +601,10 @@ def run_case(case, obs):
         left = {s_: net.get_ev(s_).session_id for s_ in net.station_ids if net.get_ev(s_) is not None}
         if left or len(net.waiting_queue):
             obs.violate("not_empty_after_run", f"second run on the same network object: stations {left} waiting {list(net.waiting_queue)}", **w3)
-        if sh3.arrived != sids or sh3.gone != sids:
+        sids3 = {s_["id"] for s_ in d["sessions"]} - set(getattr(sim3, "_verif_refused", ()))
+        if sh3.arrived != sids3 or sh3.gone != sids3:
             obs.violate("session_never_arrived_or_never_left", f"second run on the same network object: arrived {sorted(sh3.arrived)} gone "
-                        f"{sorted(sh3.gone)} expected {sorted(sids)}", **w3)
+                        f"{sorted(sh3.gone)} expected {sorted(sids3)}", **w3)
 
 
 def classify(v):
